@@ -10,11 +10,11 @@ SPEC = Spec(
     harnesses=[
         Harness(name="pq", module="exporter", pkg=_PKG,
                 files={"zz_verif_c01_pq_test.go": "c01/pq_test.go"},
-                test="TestVerifC01PQ", driver="drv_c01", n={"quick": 30000, "thorough": 300000}, timeout_s=1500),
+                test="TestVerifC01PQ", driver="drv_c01", n={"quick": 30000, "thorough": 300000}, timeout_s=900),
         # blockOnOverflow=true: blocked offers are goroutines; go1.26 synctest gives run-to-quiescence scheduling
         Harness(name="block", module="exporter", pkg=_PKG, go="go1.26",
                 files={"zz_verif_c01_pq_test.go": "c01/pq_test.go", "zz_verif_c01_block_test.go": "c01/block_test.go"},
-                test="TestVerifC01Block", driver="drv_c01", n={"quick": 4000, "thorough": 60000}, timeout_s=1500),
+                test="TestVerifC01Block", driver="drv_c01", n={"quick": 4000, "thorough": 60000}, timeout_s=900),
         Harness(name="codec", module="exporter", pkg=_PKG,
                 files={"zz_verif_c01_codec_test.go": "c01/codec_test.go"},
                 test="TestVerifC01Codec", driver="drv_c01", n={"quick": 3000, "thorough": 30000}, timeout_s=600),
